@@ -44,12 +44,11 @@ Proof. intros H. apply hidden_req. assumption. Qed.
 (* ------------------------------------------------------------------ every history *)
 Section History.
   Variable h : list op.
-  Hypothesis Hdet : forallb op_det h = true.
   Let s := run init h.
   Let r := g_run g_init h.
 
   Lemma hist_req : req (abs s) r.
-  Proof. apply refine_history. assumption. Qed.
+  Proof. apply refine_history. Qed.
   Lemma hist_shape : shape s.
   Proof. apply shape_run. apply shape_init. Qed.
 
@@ -163,18 +162,19 @@ Qed.
 Theorem tombstone_only_named r t c node u q :
   bytes_eqb u t && registered r q t && g_node_matches r node q = false ->
   g_tomb (g_tombstone r (QArgs (Some t) c (Some node))) u q = g_tomb r u q.
-Proof. intros H. cbn. rewrite H. reflexivity. Qed.
+Proof. intros H. cbn. destruct (is_valid_name t); [|reflexivity]. cbn. rewrite H. reflexivity. Qed.
 
 Theorem tombstone_keeps_registrations r q k p :
   g_prod (g_tombstone r q) k p = g_prod r k p /\ g_key (g_tombstone r q) k = g_key r k
   /\ g_nodes (g_tombstone r q) = g_nodes r.
-Proof. destruct q as [|[t|] c [node|]]; cbn; auto. Qed.
+Proof. destruct q as [|[t|] c [node|]]; cbn; auto. destruct (is_valid_name t); cbn; auto. Qed.
 
 Theorem tombstone_hides r t c node q i l :
+  is_valid_name t = true ->
   registered r q t = true -> g_node_matches r node q = true -> (0 < l)%Z ->
   lookup_producer i l (g_tombstone r (QArgs (Some t) c (Some node))) t q = false.
 Proof.
-  intros Hr Hn Hl. unfold lookup_producer, hidden. cbn. rewrite bytes_eqb_refl, Hr, Hn. cbn.
+  intros V Hr Hn Hl. unfold lookup_producer, hidden. cbn. rewrite V. cbn. rewrite bytes_eqb_refl, Hr, Hn. cbn.
   rewrite Z.sub_diag. apply Z.ltb_lt in Hl. rewrite Hl. cbn. rewrite andb_false_r. reflexivity.
 Qed.
 
@@ -221,10 +221,10 @@ Proof.
 Qed.
 
 (* ------------------------------------------------------------------ any tombstone request *)
-(* Also for the wildcard topic, whose choice of registrations depends on Go's map
-   iteration order (outside [op_det]): whatever is chosen, a tombstone request never
-   changes who is registered where, and a mark that changes belongs to a producer that is
-   registered for that topic and whose broadcast_address:http_port is the named node. *)
+(* On the model itself, for every topic argument (an invalid one, the wildcard included,
+   is refused since the fix and changes nothing): a tombstone request never changes who is
+   registered where, and a mark that changes belongs to a producer that is registered for
+   that topic and whose broadcast_address:http_port is the named node. *)
 Local Arguments has_prod : simpl never.
 
 Lemma a_tomb_tombstone_in k0 id tm m t p :
@@ -269,7 +269,8 @@ Theorem tombstone_any_request s t c node u p :
   (a_tomb (db s') u p <> a_tomb (db s) u p ->
    a_tomb (db s') u p = Some (now s) /\ a_prod (db s) (topic_key u) p = true /\ node_matches s node p = true).
 Proof.
-  cbn zeta. unfold h_tombstone. cbn [fst db set_db]. split.
+  cbn zeta. unfold h_tombstone. destruct (negb (is_valid_name t)); cbn [fst db set_db];
+    [split; [reflexivity|intros H; contradiction]|]. split.
   - intros k q. apply a_prod_fold_tombstone.
   - rewrite a_tomb_fold_tombstone.
     destruct (existsb _ _) eqn:E; cbn [andb]; [|intros H; contradiction].
@@ -278,3 +279,78 @@ Proof.
     apply existsb_exists in E as [kp [Hin Hk]]. apply filter_In in Hin as [_ Hn].
     apply andb_true_iff in Hk as [_ Hk]. apply N.eqb_eq in Hk. rewrite Hk. exact Hn.
 Qed.
+
+(* ------------------------------------------------------------------ what the key sets are NOT *)
+(* The "obvious" listing rule - a topic / channel is listed iff some connected producer
+   registered it or an admin created it - is not what nsqlookupd implements, and the plain
+   registry records that instead of idealising it: keys persist after their producers are
+   gone (registration_db.go RemoveProducer: "this leaves keys in the DB even if they have
+   empty lists"), and the one exception, "#ephemeral keys are removed when empty", is applied
+   only by an UNREGISTER naming exactly that key. *)
+Definition no_admin_create (h : list op) : bool :=
+  forallb (fun o => match o with HCreateTopic _ | HCreateChannel _ => false | _ => true end) h.
+
+Definition obvious_channel_listing : Prop :=
+  forall h t c, no_admin_create h = true -> In c (q_channels (run init h) t) ->
+    exists p, connected (g_run g_init h) p = true /\ subscribed (g_run g_init h) p t c = true.
+Definition obvious_topic_listing : Prop :=
+  forall h t, no_admin_create h = true -> In t (q_topics (run init h)) ->
+    exists p, connected (g_run g_init h) p = true /\ registered (g_run g_init h) p t = true.
+Definition ephemeral_removed_when_empty : Prop :=
+  forall h k, no_admin_create h = true ->
+    has_ephemeral_suffix (match r_cat k with CChannel => r_sub k | _ => r_key k end) = true ->
+    g_key (g_run g_init h) k = true ->
+    exists p, connected (g_run g_init h) p = true /\ g_prod (g_run g_init h) k p = true.
+
+Definition w_info : pinfo := mkInfo [104]%N 4150%Z 4151%Z [49]%N.
+Definition w_t : name := [116]%N.
+Definition w_c : name := [99]%N.
+Definition w_eph : name := ([101]%N ++ ephemeral_suffix)%list.
+Definition w_ceph : name := ([99]%N ++ ephemeral_suffix)%list.
+(* H1: a durable topic and channel stay listed after their only producer is gone *)
+Definition stale_durable : list op := [Identify 0%N w_info; Register 0%N w_t w_c; Disconnect 0%N].
+(* H2: an #ephemeral topic (and channel) stays listed when its last producer disconnects *)
+Definition stale_ephemeral_disconnect : list op := [Identify 0%N w_info; Register 0%N w_eph w_ceph; Disconnect 0%N].
+(* H3: an #ephemeral channel stays listed when its last producer UNREGISTERs the topic *)
+Definition stale_ephemeral_channel : list op := [Identify 0%N w_info; Register 0%N w_t w_ceph; Unregister 0%N w_t []].
+
+Lemma no_connected_after h :
+  g_nodes (g_run g_init h) = [] -> forall p, connected (g_run g_init h) p = false.
+Proof. intros E p. unfold connected. rewrite E. reflexivity. Qed.
+
+Theorem obvious_channel_listing_refuted : ~ obvious_channel_listing.
+Proof.
+  intros H. destruct (H stale_durable w_t w_c eq_refl) as [p [C _]]; [vm_compute; auto|].
+  rewrite no_connected_after in C by reflexivity. discriminate.
+Qed.
+
+Theorem obvious_topic_listing_refuted : ~ obvious_topic_listing.
+Proof.
+  intros H. destruct (H stale_durable w_t eq_refl) as [p [C _]]; [vm_compute; auto|].
+  rewrite no_connected_after in C by reflexivity. discriminate.
+Qed.
+
+Theorem ephemeral_removed_when_empty_refuted :
+  ~ ephemeral_removed_when_empty /\
+  (* both ways: by a disconnect (topic and channel key) and by UNREGISTER of the topic (channel key) *)
+  g_key (g_run g_init stale_ephemeral_disconnect) (topic_key w_eph) = true /\
+  g_key (g_run g_init stale_ephemeral_disconnect) (chan_key w_eph w_ceph) = true /\
+  g_key (g_run g_init stale_ephemeral_channel) (chan_key w_t w_ceph) = true /\
+  (forall p, g_prod (g_run g_init stale_ephemeral_channel) (chan_key w_t w_ceph) p = false).
+Proof.
+  split; [|repeat split; try (vm_compute; reflexivity)].
+  - intros H. destruct (H stale_ephemeral_disconnect (topic_key w_eph) eq_refl) as [p [C _]];
+      [vm_compute; reflexivity|vm_compute; reflexivity|].
+    rewrite no_connected_after in C by reflexivity. discriminate.
+  - intros p. cbn. destruct (N.eqb p 0); reflexivity.
+Qed.
+
+(* the model (= the code, by correspondence) shows the same in its answers *)
+Example stale_keys_in_answers :
+  q_topics (run init stale_durable) = [w_t] /\ q_channels (run init stale_durable) w_t = [w_c] /\
+  q_lookup 300 45 (run init stale_durable) w_t = Some ([w_c], []) /\
+  q_topics (run init stale_ephemeral_disconnect) = [w_eph] /\
+  q_channels (run init stale_ephemeral_channel) w_t = [w_ceph] /\
+  (* whereas naming the key removes it *)
+  q_channels (run init [Identify 0%N w_info; Register 0%N w_t w_ceph; Unregister 0%N w_t w_ceph]) w_t = [].
+Proof. vm_compute. repeat split; reflexivity. Qed.
